@@ -591,7 +591,14 @@ func ruleC10AccessorErrorDiscards(c *Ctx) {
 		}
 		allInstrs(f, func(i ssa.Instruction) {
 			cv, ok := i.(*ssa.Call)
-			if !ok || !cv.Call.IsInvoke() || cv.Call.Method.Name() != "WithBytesFunc" {
+			if !ok {
+				return
+			}
+			isAcc := cv.Call.IsInvoke() && cv.Call.Method.Name() == "WithBytesFunc"
+			if h := staticCallee(cv); h != nil && h.Name() == "WithBytesFunc" && h.Signature.Recv() != nil {
+				isAcc = true // a concrete accessor (*internal.CryptoKey) called directly
+			}
+			if !isAcc {
 				return
 			}
 			n++
